@@ -167,31 +167,36 @@ def generate_and_observe(chk: Check, scen: list[dict], *, nopp: bool = True, wan
     return out
 
 
+PYIMPORT_CHUNK = 400
+
+
 def predict_entries(chk: Check, recs: list[dict], label: str, only: set[str] | None = None) -> dict[str, list[dict]]:
     """Run PyImport over the facts of every observed package; returns id -> verdicts (one per entry module)."""
     d = chk.scratch.sub("pyimport")
-    tf = d / "facts.ndjson"
-    n = 0
-    with tf.open("w") as f:
-        for r in recs:
-            o = r["obs"]
-            if not o or "facts" not in o or "mods" not in o["facts"]:
-                continue
-            if only is not None and r["job"]["id"] not in only:
-                continue
-            pkg, corep = r["job"]["pkg"], r["job"]["core"]
-            mods = o["facts"]["mods"]
-            # entries: every module of the client package; core modules only when the core is shared
-            entries = [m for m in mods if modkind(pkg, corep, m) != "core" or (corep and m.count(".") <= corep.count(".") + 1)]
-            f.write(json.dumps({"id": r["job"]["id"], "mods": mods, "entries": entries}) + "\n")
-            n += 1
-    if n == 0:
+    lines: list[str] = []
+    for r in recs:
+        o = r["obs"]
+        if not o or "facts" not in o or "mods" not in o["facts"]:
+            continue
+        if only is not None and r["job"]["id"] not in only:
+            continue
+        pkg, corep = r["job"]["pkg"], r["job"]["core"]
+        mods = o["facts"]["mods"]
+        # entries: every module of the client package; core modules only when the core is shared
+        entries = [m for m in mods if modkind(pkg, corep, m) != "core" or (corep and m.count(".") <= corep.count(".") + 1)]
+        lines.append(json.dumps({"id": r["job"]["id"], "mods": mods, "entries": entries}))
+    if not lines:
         return {}
-    r = run_tlc(chk.scratch, "PyImport", "SPECIFICATION Spec\nINVARIANT TypeOK\nCHECK_DEADLOCK FALSE\n", workers=core.NCPU, env={"TRACE_FILE": str(tf)}, coverage=False, timeout=900)
-    chk.add_tlc(f"PyImport[{label}]", r)
     out: dict[str, list[dict]] = {}
-    for v in r.printed.get("VERDICT", []):
-        out.setdefault(v["id"], []).append(v)
+    # one TLC run per PYIMPORT_CHUNK packages: the whole thorough family in one run came close to the time limit on a loaded machine
+    for k in range(0, len(lines), PYIMPORT_CHUNK):
+        tf = d / f"facts_{k}.ndjson"
+        tf.write_text("\n".join(lines[k : k + PYIMPORT_CHUNK]) + "\n")
+        r = run_tlc(chk.scratch, "PyImport", "SPECIFICATION Spec\nINVARIANT TypeOK\nCHECK_DEADLOCK FALSE\n", workers=core.NCPU, env={"TRACE_FILE": str(tf)}, coverage=False, timeout=1800)
+        chk.add_tlc(f"PyImport[{label}/{k // PYIMPORT_CHUNK}]", r)
+        for v in r.printed.get("VERDICT", []):
+            out.setdefault(v["id"], []).append(v)
+        tf.unlink()
     chk.cov["entry_points_explored"] = chk.cov.get("entry_points_explored", 0) + sum(len(v) for v in out.values())
     return out
 
